@@ -17,6 +17,20 @@ import (
 
 var caseTimeout = 3 * time.Second
 
+// A case that does not finish costs a whole timeout. On a tree where pipelines stall that adds up to many minutes, so once a
+// process has seen a few timeouts it waits less for the following cases (each is still reported as a timeout; on a tree
+// without stalls no case ever times out and nothing changes).
+var timeoutsSeen atomic.Int32
+
+func noteTimeout() { timeoutsSeen.Add(1) }
+
+func curTimeout() time.Duration {
+	if timeoutsSeen.Load() >= 3 && caseTimeout > 500*time.Millisecond {
+		return 500 * time.Millisecond
+	}
+	return caseTimeout
+}
+
 func hexOfFloat(f float64) string {
 	if math.IsNaN(f) {
 		return "7ff8000000000001"
@@ -201,7 +215,8 @@ func drainAll[T any](cs []<-chan T, timeout time.Duration) ([][]T, bool) {
 			return nil, false
 		}
 		return res, true
-	case <-time.After(timeout):
+	case <-time.After(min(timeout, curTimeout())):
+		noteTimeout()
 		return nil, false
 	}
 }
